@@ -1150,6 +1150,8 @@ def run_case(case, cold=False):
     """Executes the real rewriter for one case and decides every clause.  Returns plain data."""
     if case.get('layer') == 'D':
         return run_place_case(case, cold)
+    if case.get('layer') == 'E':
+        return run_nest_case(case, cold)
     _case_counter[0] += 1
     d = os.path.join(scratch_root(), 'c17', '%d.%d' % (os.getpid(), _case_counter[0]))
     os.makedirs(d)
@@ -1978,6 +1980,158 @@ def layer_d(ck, stats):
 
 
 # =========================================================================================================
+# Layer E: a target call that is not a whole statement.  Every project of the other layers writes a target as
+# `name = executable(...)` or as a bare call; the language lets the call stand wherever an expression can (an array element,
+# an argument of another call, a dictionary value, a branch of a ternary), and every `target` / `kwargs` command addresses
+# it by name all the same.  Oracle: exit status 0, only the statement that holds the call changes, the file parses, the
+# reference evaluation finds the addressed target with exactly the requested value (gone after rm_target) and the other
+# target as before; `info` agrees.  What the enclosing expression should become when the call is taken out of it is not
+# specified (counted, not compared).
+NEST_CONTEXTS = [
+    ('assigned', 'two = %s'),
+    ('bare', '%s'),
+    ('array-only', 'x = [%s]'),
+    ('array-first', "x = [%s, 'tail']"),
+    ('array-middle', "x = ['head', %s, 'tail']"),
+    ('array-last', "x = ['head', %s]"),
+    ('call-argument', "test('t', %s)"),
+    ('call-keyword', "test('t', keep, depends : %s)"),
+    ('dict-value', "x = {'k' : %s}"),
+    ('ternary-branch', 'x = flag ? %s : keep'),
+    ('parenthesised', 'x = (%s)'),
+]
+NEST_CMDS = [
+    ('rm_target', c_target('two', 'target_rm')),
+    ('add', c_target('two', 'src_add', ['new.c'])),
+    ('rm', c_target('two', 'src_rm', ['b.c'])),
+    ('kwargs-set', c_kwargs('set', 'target', 'two', {'install': True})),
+    ('info', c_target('two', 'info')),
+]
+
+
+def nest_text(fmt):
+    return ("project('p', 'c')\nflag = true\nkeep = executable('keep', 'k.c', install : false)   # kept comment\n"
+            + fmt % "executable('two', 'a.c', 'b.c', c_args : ['-DX=' + (1 + 2).to_string()])" + "\nafter_variable = 1\n")
+
+
+def run_nest_case(case, cold=False):
+    _case_counter[0] += 1
+    d = os.path.join(scratch_root(), 'c17', 'e%d.%d' % (os.getpid(), _case_counter[0]))
+    os.makedirs(d)
+    counters = new_counters()
+    t0 = case['text']
+    cmd = case['cmds'][0]
+    op = cmd['operation']
+    pre = 'C17:nested-call:%s:' % (op if cmd['type'] == 'target' else 'kwargs-' + op)
+    where = '%s on a target call written as %s' % (cmd_label(cmd), case['context'])
+    t1 = t0
+    try:
+        path = os.path.join(d, 'meson.build')
+        with open(path, 'w', encoding='utf-8', newline='') as f:
+            f.write(t0)
+        for n in ('a.c', 'b.c', 'k.c', 'new.c'):
+            with open(os.path.join(d, n), 'w') as f:
+                f.write('/* %s */\n' % n)
+        res = run_rewrite(d, to_cli(cmd), cold)
+        counters['processes'] += 1
+        counters['steps'] += 1
+        with open(path, 'r', encoding='utf-8', newline='') as f:
+            t1 = f.read()
+        viol = check_nest_step(case, cmd, pre, where, t0, t1, res, counters)
+        if not viol and t1 != t0:
+            s1 = {t.name: t for t in P.evaluate({P.BUILD: t1})}
+            for name in sorted(s1):
+                r2 = run_rewrite(d, to_cli(c_target(name, 'info')), cold)
+                counters['processes'] += 1
+                counters['observer_runs'] += 1
+                if r2['rc'] != 0 or r2['unhandled']:
+                    viol.append(('C17:info:failed', 'info on the rewritten file failed: %s' % r2['out'].strip()[-300:]))
+                else:
+                    viol += check_nest_info(r2['out'], s1[name], counters)
+    finally:
+        shutil.rmtree(d, ignore_errors=True)
+    return {'id': case['id'], 'viol': viol, 'counters': counters, 'final': t1, 'texts': [t0, t1] if viol else None}
+
+
+def check_nest_info(out, t, counters):
+    try:
+        data = json.loads(out[out.index('{'):])
+    except (ValueError, json.JSONDecodeError):
+        return [('C17:info:no-json', 'info printed no JSON: %r' % out[:200])]
+    ent = [v for v in data.get('target', {}).values() if v.get('name') == t.name]
+    if len(ent) != 1:
+        return [('C17:info:target-missing', 'target info has no entry for %s' % t.name)]
+    counters['info_compared'] += 1
+    if sorted(os.path.normpath(x) for x in ent[0]['sources']) != sorted(t.sources):
+        return [('C17:nested-call:info:sources', 'info reports sources=%r, the file says %r' % (ent[0]['sources'], list(t.sources)))]
+    return []
+
+
+def check_nest_step(case, cmd, pre, where, t0, t1, res, counters):
+    if res['unhandled'] or res['signaled']:
+        return [(pre + 'crash:' + exc_name(res['out']), '%s died: %s' % (where, res['out'].strip().splitlines()[-3:]))]
+    if res['rc'] != 0:
+        return [(pre + 'refused', '%s failed with exit status %d: %s' % (where, res['rc'], res['out'].strip()[-300:]))]
+    b0 = {P.BUILD: t0}
+    lv0 = P.leaves_of(b0)
+    s0 = {t.name: t for t in P.evaluate(b0)}
+    if cmd['operation'] == 'info':
+        counters['info_cmds'] += 1
+        if t1 != t0:
+            return [('C17:info-modified-file', 'an info command changed the file')]
+        return check_nest_info(res['out'], s0['two'], counters)
+    hit = P.target_call(lv0, 'two')
+    runs, why = L.skeleton_match(t0, t1, lv0[P.BUILD], {hit[1]}, False)
+    if runs is None:
+        return [(pre + 'other-text-changed', '%s: %s' % (where, why))]
+    counters['edited_statements'] += 1
+    perr = real_parse_error(t1)
+    try:
+        s1l = P.evaluate({P.BUILD: t1})
+    except SyntaxFail as e:
+        perr = perr or 'reference parser: %s' % e
+        s1l = None
+    except (Fail, Unspecified) as e:
+        return [(pre + 'no-longer-evaluates', '%s: the file evaluated before and does not now: %s' % (where, e))]
+    if perr:
+        counters['unparsable'] += 1
+        new = [ln for ln in t1.splitlines() if ln not in t0.splitlines()]
+        return [(pre + 'unparsable', '%s left a file that no longer parses (%s): %s' % (where, perr, new))]
+    s1 = {t.name: t for t in s1l}
+    counters['program_level_compared'] += 1
+    old = s0['two']
+    if cmd['operation'] == 'target_rm':
+        exp = None
+        if case['context'] not in ('assigned', 'bare'):
+            counters['skipped_unspecified'] += 1     # the value of the enclosing expression
+    elif cmd['type'] == 'kwargs':
+        exp = old._replace(other=old.other + (('install', reflang.canon(True)),))
+    elif cmd['operation'] == 'src_add':
+        exp = old._replace(sources=tuple(sorted(old.sources + ('new.c',))))
+    else:
+        exp = old._replace(sources=tuple(x for x in old.sources if x != 'b.c'))
+    V = []
+    if s1.get('two') != exp:
+        V.append((pre + 'value', '%s: the target is now %s, requested %s' % (where, s1.get('two'), exp)))
+    if s1.get('keep') != s0['keep']:
+        V.append((pre + 'other-target-changed', '%s changed the target it does not address' % where))
+    return V
+
+
+def layer_e(ck, stats):
+    cases = []
+    for ctx, fmt in NEST_CONTEXTS:
+        text = nest_text(fmt)
+        P.evaluate({P.BUILD: text})
+        for name, cmd in NEST_CMDS:
+            cases.append({'id': 'E/%s/%s' % (ctx, name), 'layer': 'E', 'family': 'nest:' + name, 'context': ctx, 'text': text, 'cmds': [cmd],
+                          'form': 'cli'})
+    stats.update(contexts=len(NEST_CONTEXTS), commands=len(NEST_CMDS),
+                 call_is_not_a_whole_statement=sum(1 for c in cases if c['context'] not in ('assigned', 'bare')))
+    return cases
+
+
+# =========================================================================================================
 def main():
     ck = Check('C17', 'exploration')
     if ck.args.replay:
@@ -1996,6 +2150,9 @@ def main():
     dstats = {}
     if ck.want('D'):
         cases += layer_d(ck, dstats)
+    estats = {}
+    if ck.want('E'):
+        cases += layer_e(ck, estats)
     by_id = {c['id']: c for c in cases}
     ck.require(len(by_id) == len(cases), 'case ids are not unique')
     total = new_counters()
@@ -2026,7 +2183,7 @@ def main():
                 if sorted(k for k, _ in r2['viol']) != sorted(k for k, _ in r['viol']):
                     ck.internal('nondeterministic verdict for %s: %r vs %r' % (c['id'], r['viol'], r2['viol']))
             ck.violation(key, '[%s] %s' % (c['id'], what),
-                         {'case': {k: c[k] for k in ('id', 'text', 'cmds', 'form', 'layer', 'family', 'place', 'cwd', 'info_first') if k in c},
+                         {'case': {k: c[k] for k in ('id', 'text', 'cmds', 'form', 'layer', 'family', 'place', 'cwd', 'info_first', 'context') if k in c},
                           'observe': c.get('observe', False), 'texts': r['texts']})
     # cold re-validation of a slice: the fork runner must be faithful to a fresh `python meson.py`
     cold_n = 0
@@ -2046,12 +2203,13 @@ def main():
                 hist.setdefault(key, []).append(c['id'])
         for key in sorted(hist):
             print('HIST %5d %s   e.g. %s' % (len(hist[key]), key, hist[key][0]))
-    for k in ('A', 'B', 'C', 'D'):
+    for k in ('A', 'B', 'C', 'D', 'E'):
         sub = [c for c in cases if c['layer'] == k]
         ck.part('layer' + k, cases=len(sub))
     ck.part('layerA', **stats)
     ck.part('layerC', **cstats)
     ck.part('layerD', **dstats)
+    ck.part('layerE', **estats)
     ck.part('counters', **total)
     ck.sample({'case': cases[0]['id'], 'cmd': cases[0]['cmds']})
     if len(cases) > 1:
@@ -2070,6 +2228,22 @@ def main():
                 of_which_left_the_file_byte_identical=wl_kept)
         ck.require(len(wl) > 50, 'no removal named a file that only the other list of the target holds')
         ck.require(0 < unchanged_c < len([c for c in cases if c['layer'] == 'C']), 'layer C: every / no command changed the file')
+    if ck.want('D'):
+        dc = [c for c in cases if c['layer'] == 'D']
+        ck.part('layerD', file_left_unchanged=sum(1 for c in dc if finals[c['id']]), sets_checked_against_disk=total['place_existence_checked'])
+        ck.require(dstats['placements'] >= 19 and dstats['list_in_other_file'] > 100 and dstats['list_resolved_in_other_dir_than_target'] > 50,
+                   'layer D: no project keeps a list in another build file / resolves it in another directory than the target')
+        ck.require(dstats['target_in_subdir'] > 100 and dstats['run_inside_source_root'] > 50 and dstats['run_with_sourcedir'] > 50,
+                   'layer D: sub-directory targets / both ways of running the tool were not exercised')
+        ck.require(min(dstats['named_file_in_target_dir'], dstats['named_file_in_defining_dir'], dstats['named_file_in_third_dir']) > 50,
+                   'layer D: the commands did not name files of every directory class')
+        ck.require(total['place_existence_checked'] > 200, 'layer D: few steps reached the comparison with the files on disk')
+        ck.require(any(not finals[c['id']] for c in dc if c['place'][1] != 'same'), 'layer D: no command changed a project whose list lives in another file')
+    if ck.want('E'):
+        ec = [c for c in cases if c['layer'] == 'E']
+        changed = sum(1 for c in ec if not finals[c['id']] and c['context'] not in ('assigned', 'bare'))
+        ck.part('layerE', nested_call_edited=changed)
+        ck.require(estats['call_is_not_a_whole_statement'] >= 40 and changed >= 30, 'layer E: commands on nested target calls did not edit the file')
     if not ck.args.only:
         ck.require(total['edited_statements'] > 100, 'few edited statements were compared')
         ck.require(total['domain_evaluations'] > 1000, 'domain evaluation did not run')
@@ -2086,6 +2260,10 @@ def main():
               'from), `add_extra_files`/`rm_extra_files` the `extra_files` keyword (and the assignments it is built from); the other list of the '
               'target, every other target and every array that feeds no target must stay textually and by value what they were; build files are '
               'read with universal newlines (a lone carriage return is a line break)')
+    ck.assume('layer D: a string that reaches a target (directly or through an array variable) names a file relative to the directory of the '
+              'build file with the target call, a files() object relative to the directory of the build file that calls files() (Reference '
+              'manual); file names on the rewriter command line and in its info output are paths from the source root (Rewriter.md; '
+              'unittests/rewritetests.py test_target_subdir); every file a command names exists on disk')
     ck.assume('unspecified corners (skipped, counted): a source listed twice, addressed keyword that does not evaluate to '
               'literals, kwargs info of non-literal values, value clauses when the reference cannot evaluate the file')
     ck.finish(evaluations=total['steps'], distinct_nontrivial=len(outcome_classes),
@@ -2094,12 +2272,21 @@ def main():
                    'every ordered pair of %s commands; layer C: every list operation (add / rm / add_extra_files / rm_extra_files) with every file name '
                    'of a project in which each name class occurs (only in the sources, only in extra_files, in both, in the lists of another '
                    'target, in an unrelated array, nowhere) and %s, on %d ways of writing the two lists (sources: %s x extra_files: %s). '
+                   'Layer D: every list operation on %d placements of the pieces (target call in the root file / a sub-directory x lists written as '
+                   'strings or files() in the call, as array / files(..) / files([..]) variable assigned in the same file, the parent\'s file or a '
+                   'sibling directory entered earlier), names given from the source root for a new file in each of 4 directories, every existing file, '
+                   'a file only the other target lists, several names; chains add.add.rm / rm.add / xadd.xrm / xrm.xadd checked step by step; run '
+                   'inside the source root and with --sourcedir (%s). '
+                   'Layer E: rm_target / add / rm / kwargs set / info on a target call written in each of %d positions (assignment, bare call, array '
+                   'element first/middle/last/only, argument and keyword argument of another call, dictionary value, ternary branch, parenthesised). '
                    'One evaluation = one real `meson rewrite` process whose result went through '
                    'clauses (1)-(4). distinct_nontrivial = distinct (layer, family, violation keys, file changed) outcome classes'
                    % (ck.q(1, 3), CONTEXTS, len(ALPHABET), len(SHAPES_QUICK), ck.q('%d (4 shapes)' % len(PAIR_QUICK), 'all non-refused (8 shapes)'),
                       ck.q('every unordered pair of the names the target mentions on 2 shapes (second target addressed on 6 shapes)',
                            'every unordered pair of names (ordered, and for either target, on 6 shapes), single names for either target in CLI and JSON form'),
-                      len(CROSS_SF) * len(CROSS_XF), CROSS_SF, CROSS_XF),
+                      len(CROSS_SF) * len(CROSS_XF), CROSS_SF, CROSS_XF, len(P.all_places()),
+                      ck.q('root-file targets inside the source root; sub-directory targets with --sourcedir and, single commands, inside the source root',
+                           'every chain both ways'), len(NEST_CONTEXTS)),
               exhaustive=True, cases=len(cases), cases_with_findings=n_viol_cases, skipped_unspecified=total['skipped_unspecified'],
               cold_revalidated=cold_n)
 
